@@ -33,6 +33,9 @@ pub struct Env {
     /// Run from another working directory (inputs are always named by absolute path).
     #[serde(default)]
     pub other_cwd: bool,
+    /// The output directory already holds (longer) files of the same names from an earlier, different run.
+    #[serde(default)]
+    pub dirty_out: bool,
     /// Deliver stdin in chunks of this size (only for commands that read stdin).
     pub stdin_chunk: usize,
 }
@@ -58,6 +61,7 @@ impl Env {
             columns: None,
             extra_vars: vec![],
             other_cwd: false,
+            dirty_out: false,
             stdin_chunk: 1 << 20,
         }
     }
@@ -88,7 +92,7 @@ impl Env {
                     ("RUST_LOG", &["trace", "off"]),
                     ("CLICOLOR_FORCE", &["1"]),
                     ("RAYON_NUM_THREADS", &["1", "7"]),
-                    ("TMPDIR", &["/tmp", "/dev/shm"]),
+                    ("TMPDIR", &["/tmp", "/dev/shm", "/nonexistent-tmp"]),
                     ("SOURCE_DATE_EPOCH", &["0", "1700000000"]),
                     ("HOSTNAME", &["a", "b.example.org"]),
                 ];
@@ -101,6 +105,7 @@ impl Env {
                 v
             },
             other_cwd: rng.pct(30),
+            dirty_out: rng.pct(35),
             stdin_chunk: *rng.pick(&[1usize, 3, 64, 4096, 1 << 20]),
         }
     }
@@ -125,6 +130,7 @@ impl Env {
             "stack_pad" => e.stack_pad = 0,
             "extra_vars" => e.extra_vars.clear(),
             "cwd" => e.other_cwd = false,
+            "dirty_out" => e.dirty_out = false,
             "locale" => {
                 e.locale = None;
                 e.tz = None;
@@ -141,7 +147,7 @@ impl Env {
         e
     }
 
-    pub const DIMS: &'static [&'static str] = &["hash_seed", "dir_order", "cpus", "clock", "heap_pad", "aslr", "stack_pad", "locale", "extra_vars", "cwd", "stdin_chunk"];
+    pub const DIMS: &'static [&'static str] = &["hash_seed", "dir_order", "cpus", "clock", "heap_pad", "aslr", "stack_pad", "locale", "extra_vars", "cwd", "dirty_out", "stdin_chunk"];
 }
 
 #[derive(Clone, Debug, PartialEq, Eq)]
